@@ -17,7 +17,7 @@ from vlib.core import safe_repr
 PROP = "C14"
 LEVEL = "exploration"
 EVAL_COUNTER = "ops_judged"
-GATES = ["ops_judged", "views_compared", "binary_results_checked", "equivalence_rejections", "type_rejections", "by_key_ops", "by_item_ops"]
+GATES = ["ops_judged", "views_compared", "binary_results_checked", "equivalence_rejections", "type_rejections", "by_key_ops", "by_item_ops", "constructions_judged", "construction_rejections_expected"]
 RULE = (
     "operation sequences over KeyedSets built from universes of k keys x p payloads (self-keyed strings, tuples and "
     "unhashable lists with key function it[0], keyed spec items, typed KeyedSet[T,K]) under both settings of "
@@ -65,7 +65,8 @@ class Universe:
             self.keyfn = lambda it: it[0]
             if name == "typed_tuple":
                 self.typed = (tuple, str)
-                self.bad = [("wrong_key_type", lambda: (5, 0)), ("wrong_item_type", lambda: ["q", 0])]
+                # (the last one has the key of a legitimate item: it may arrive as a *replacement* under an existing key)
+                self.bad = [("wrong_key_type", lambda: (5, 0)), ("wrong_item_type", lambda: ["q", 0]), ("wrong_item_type_existing_key", lambda: ["a", 0])]
         elif name == "listitems":
             self.specs = [(k, p) for k in "abc" for p in (0, 1)]
             self.make = lambda s: [s[0], s[1]]
@@ -89,7 +90,13 @@ class Universe:
             self.kf = lambda it: it.k
             if name == "typed_spec":
                 self.typed = (KLeaf, str)
-                self.bad = [("wrong_item_type", lambda: "plainstr"), ("wrong_item_type2", lambda: IntLeaf(4))]
+
+                @spec_class(key="k", bootstrap=True)
+                class OtherLeaf:  # same shape and key type as KLeaf, but not a KLeaf
+                    k: str
+                    v: int = 0
+
+                self.bad = [("wrong_item_type", lambda: "plainstr"), ("wrong_item_type2", lambda: IntLeaf(4)), ("wrong_item_type_existing_key", lambda: OtherLeaf("a"))]
         else:
             raise ValueError(name)
         self.absent_key = "zz"
@@ -113,7 +120,7 @@ class Raise(Exception):
         self.family = family
 
 
-FAMILIES = {"value": (ValueError,), "type": (TypeError,), "key": (KeyError,), "any": (Exception,)}
+FAMILIES = {"value": (ValueError,), "type": (TypeError,), "type_or_value": (TypeError, ValueError), "key": (KeyError,), "any": (Exception,)}
 UNSPEC = object()
 
 
@@ -149,6 +156,12 @@ def m_contains(U, M, x, is_key=False):
 
 def m_add(U, M, x, badfam):
     if badfam:
+        try:
+            k = U.kf(x)
+        except Exception:
+            k = None
+        if U.flag and k is not None and k in M:
+            raise Raise("type_or_value")  # wrong type *and* unequal to the item stored under its key: either rejection will do
         raise Raise("type")
     k = U.kf(x)
     if U.flag and k in M and not same(M[k], x):
@@ -572,10 +585,66 @@ def _resync(U, s, M):
         pass
 
 
+def judge_constructions(ctx, U, probes):
+    """
+    Building a set from a sequence adds the items one after the other: every sequence of <= 3 items of the universe
+    (repetitions and same-key conflicts included, wrong-typed items for typed sets) through the constructor.
+    """
+    idx = list(range(len(U.specs)))
+    seqs = [()] + [(i,) for i in idx] + list(itertools.product(idx, repeat=2)) + [c for c in itertools.product(idx, repeat=3) if len({U.kf(U.make(U.specs[i])) for i in c}) < 3]
+    cases = [("specs", c, None) for c in seqs]
+    for j, (_tag, mk) in enumerate(U.bad):
+        cases += [("bad_first", (j,), None), ("bad_after_same_key", (j,), None)]
+    for kind, c, _ in cases:
+        case = [U.name, U.flag, "construct", kind, list(c)]
+        if kind == "specs":
+            items = [U.make(U.specs[i]) for i in c]
+            badfam = False
+        else:
+            bad = U.bad[c[0]][1]()
+            items = [bad] if kind == "bad_first" else [U.make(U.specs[0]), bad]
+            badfam = True
+        M, expect = {}, None
+        try:
+            for x in items:
+                m_add(U, M, x, badfam and x is items[-1])
+        except Raise as r:
+            expect = r.family
+        ctx.count("constructions_judged")
+        feats = {"universe": U.name, "flag": U.flag, "op": "construct", "arg": kind, "expect": expect or "ok", "n": len(items)}
+        from spec_classes.errors import BaseTypeError  # what a typed container's constructor raises on Python >= 3.11
+
+        try:
+            s = U.new_set(items)
+            got = None
+        except (Exception, BaseTypeError) as e:  # noqa
+            s, got = None, e
+        label = f"{U.name}/flag={U.flag}: {'KeyedSet[...]' if U.typed else 'KeyedSet'}({safe_repr(items, 80)})"
+        if expect is not None:
+            ctx.count("construction_rejections_expected")
+            want = {"value": (ValueError,), "type": (TypeError, BaseTypeError), "type_or_value": (TypeError, BaseTypeError, ValueError)}[expect]
+            wname = {"value": "ValueError", "type": "TypeError", "type_or_value": "TypeError or ValueError"}[expect]
+            if got is None:
+                ctx.violation("raise_expected", f"{label} should raise {wname} ({'unequal items under one key with enforce_item_equivalence' if expect == 'value' else 'item or key of the wrong type'}) but built {safe_repr(list(s), 80)}", features=feats, case=case)
+            elif not isinstance(got, want):
+                ctx.violation("raise_expected", f"{label} raised {type(got).__name__}: {got}; expected {wname}", features=feats, case=case)
+            continue
+        if got is not None:
+            ctx.violation("unexpected_raise", f"{label} raised {type(got).__name__}: {safe_repr(got, 100)}", features=feats, case=case)
+            continue
+        compare_view_ok = list(s._dict.keys()) if hasattr(s, "_dict") else None
+        real = {U.kf(v): v for v in s}
+        if set(real) != set(M) or any(not same(real[k], M[k]) for k in M) or len(s) != len(M):
+            ctx.violation("view_vs_model", f"{label} holds {safe_repr(list(s), 80)}; one item per key, the most recently added one, is {safe_repr(list(M.values()), 80)}", features=feats, case=case)
+        ctx.sig("construct", U.name, U.flag, kind, len(items), len(M))
+
+
 def run(ctx, params):
     U = Universe(params["universe"], params["flag"])
     rng = ctx.rng
     probes = {"keys": list(U.keys) + [U.absent_key], "items": [U.make(s) for s in U.specs]}
+    if params["mode"] == "exh" and params.get("part", 0) == 0:
+        judge_constructions(ctx, U, probes)
     if params["mode"] == "exh":
         starts = start_sets(U)[params.get("part", 0) :: params.get("parts", 1)]
         for si, combo in enumerate(starts):
